@@ -103,6 +103,12 @@ class Cx:
         s = self.S.summary(fn, full=full, bind=bind)
         if s.truncated:
             raise AnalysisError(f"path explosion in {fn.qualname}", obligation)
+        unk = s.__dict__.get("_unknown")
+        if unk is None:
+            unk = s.__dict__["_unknown"] = [ev for ev, _ in s.walk() if ev.kind == "unknown"]
+        if unk:
+            # a statement the summariser has no reading for: nothing is claimed about the function, either way
+            raise AnalysisError(f"{fn.qualname} contains a statement that is not modelled (line {unk[0].line}: {unk[0].a[1] if isinstance(unk[0].a, tuple) else unk[0].a})", obligation)
         return s
 
     def fn(self, q: str, obligation: str = "-") -> FunctionInfo:
